@@ -108,8 +108,12 @@ def name_language(jail, root):
         "/" + abstok + "/inbox", "/" + abstok + "/nonesuch", "/" + abstok,
         "/" + TOKEN + "-top", "/" + TOKEN + "-top/sub", "//" + TOKEN + "-top2",
         "../decoy/", "..//decoy//inbox", "a/../..", ".", "./", "a/..", "a/b/../..", "/", "//", "/.", "/..",
+        # white space around traversal components (only expressible quoted or as a literal): a component
+        # ' ..' is an ordinary name, unless something trims it after the confinement test
+        " ../decoy/inbox", " ../decoy/sekrit", "\t../decoy/inbox", " ../decoy/nonesuch", "../decoy/inbox ", " ..", ".. ", " ../..", "a/ ../../decoy/inbox", " /" + absdec.lstrip("/") + "/inbox",
+        " " + absdec + "/inbox", "\t" + abstok + "/inbox", " ../../canarydir", " inbox/../../decoy/inbox",
     ]
-    exist_pairs = [("../decoy/inbox", "../decoy/nonesuch"), ("a/b/../../../decoy/inbox", "a/b/../../../decoy/nonesuch"), ("/" + absdec + "/inbox", "/" + absdec + "/nonesuch"),
+    exist_pairs = [(" ../decoy/inbox", " ../decoy/nonesuch"), ("../decoy/inbox", "../decoy/nonesuch"), ("a/b/../../../decoy/inbox", "a/b/../../../decoy/nonesuch"), ("/" + absdec + "/inbox", "/" + absdec + "/nonesuch"),
                    (absdec + "/inbox", absdec + "/nonesuch"), (abstok + "/inbox", abstok + "/nonesuch"),
                    ("/" + abstok + "/inbox", "/" + abstok + "/nonesuch"), ("../decoy/sekrit", "../decoy/sekrix")]
     return names, exist_pairs
